@@ -7,6 +7,7 @@
   the first clean list, last error otherwise) is checked on every run; (dynamic) the compiled routers
   are driven with scripted authorization callbacks (`rig` stream).  `effective_def` is in C04.lean.
 -/
+import Gleece.Properties.Reduce
 import Gleece.Model.Router
 import Gleece.Properties.C04
 namespace Gleece.Router
